@@ -73,9 +73,15 @@ func render09(items []sitem, env *env09, parts map[string]string, ctr *int, src,
 			if sharedDef == nil {
 				continue
 			}
-			// contentOf("shared", {v: N}) from wherever we are: rendered in a child of the DEFINING scope
-			src.WriteString(fmt.Sprintf("<%%= contentOf(\"shared\", {v: %d}) %%>", it.Val))
-			inner := &env09{vars: map[string]int{"v": it.Val}, outer: sharedDef}
+			// contentOf("shared", {key: N}) or contentOf("shared") from wherever we are: rendered in a
+			// FRESH child of the DEFINING scope holding only this call's data (nothing of earlier replays)
+			inner := &env09{vars: map[string]int{}, outer: sharedDef}
+			if it.Name == "" {
+				src.WriteString("<%= contentOf(\"shared\") %>")
+			} else {
+				src.WriteString(fmt.Sprintf("<%%= contentOf(\"shared\", {%s: %d}) %%>", it.Name, it.Val))
+				inner.vars[it.Name] = it.Val
+			}
 			out.WriteString("{")
 			for _, nm := range c09names {
 				if v, ok := inner.get(nm); ok {
@@ -135,7 +141,7 @@ func gen09x(r *Rng, depth int, top bool) []sitem {
 			if k == "define" && !top {
 				k = "replay"
 			}
-			items = append(items, sitem{Kind: k, Val: 1 + r.Intn(8)})
+			items = append(items, sitem{Kind: k, Val: 1 + r.Intn(8), Name: []string{"v", "v", "a", "b", ""}[r.Intn(5)]})
 		default:
 			if depth > 0 {
 				k := []string{"for", "fn", "partial", "content", "blkctx"}[r.Intn(5)]
@@ -156,7 +162,7 @@ func init() {
 	register("C09", func(e *Env) {
 		renderPrelude()
 		e.perShard = 50
-		e.rep.Rule = "nestings to depth 3 of {for, user-function call, partial, contentFor+contentOf with data, block helper with its own context}, each binding v, with let / shadowing let / assignment / probe statements for names {a, b, v} at every level and a probe of every name after every construct; all single constructs with a fixed body exhaustively + random trees; judged against an environment-chain reference (constructs push a frame, lookups fall through, writes go to the top frame); distinct by template"
+		e.rep.Rule = "nestings to depth 3 of {for, user-function call, partial, contentFor+contentOf with data (the same stored block replayed several times with different data keys and with none), block helper with its own context}, each binding v, with let / shadowing let / assignment / probe statements for names {a, b, v} at every level and a probe of every name after every construct; all single constructs with a fixed body exhaustively + random trees; judged against an environment-chain reference (constructs push a frame, lookups fall through, writes go to the top frame); distinct by template"
 		judge := func(items []sitem, tag string) {
 			parts := map[string]string{}
 			var src, out strings.Builder
@@ -190,8 +196,9 @@ func init() {
 			if k1 == "partial" {
 				continue // a partial is a separate Render: it has its own compiler
 			}
-			inner := []sitem{{Kind: "replay", Val: 5}, {Kind: "let", Name: "a", Val: 6}, {Kind: "let", Name: "b", Val: 7}, {Kind: "probe", Name: "a"}, {Kind: "probe", Name: "v"}, {Kind: "replay", Val: 8}, {Kind: "probe", Name: "v"}}
+			inner := []sitem{{Kind: "replay", Val: 5, Name: "v"}, {Kind: "let", Name: "a", Val: 6}, {Kind: "let", Name: "b", Val: 7}, {Kind: "probe", Name: "a"}, {Kind: "probe", Name: "v"}, {Kind: "replay", Val: 8, Name: "b"}, {Kind: "replay"}, {Kind: "replay", Val: 9, Name: "v"}, {Kind: "probe", Name: "v"}}
 			judge(append([]sitem{{Kind: "let", Name: "a", Val: 1}, {Kind: "define"}, {Kind: k1, Val: 3, Body: inner}}, tail...), "replay")
+			judge(append([]sitem{{Kind: "define"}, {Kind: "replay", Val: 2, Name: "a"}, {Kind: "replay"}, {Kind: "replay", Val: 3, Name: "b"}, {Kind: "replay", Val: 4, Name: "v"}, {Kind: "replay"}}, tail...), "replay-seq")
 		}
 		n := 120
 		if e.Thorough() {
